@@ -1,1 +1,110 @@
--- property theorems for C19 (stub)
+/- C19: arbitrarily deep nesting or recursion yields an error, not a crash.
+
+   Proved here:  (1) soundness of the call-graph certificate for EVERY graph (`bounded_depth*`), completeness of a
+   failing certificate (`unguarded_cycle_refutes_every_rank`);  (2) the per-run obligation on the graph regenerated
+   from the current source (`cg_rank_ok`, kernel evaluation);  (3) the non-recursive designs (compare/equals traversal
+   stack, parser state stack, marker spill) and tail-call frame reuse, on hand models.
+   Tested, not proved (checks/C19.py): that every guard really counts on the recursive path, native stack bytes per
+   frame x limit < available stack, and that the hand models follow the C (driver jm_c19 vs fiber.c). -/
+import JanetModel.Depth.Lemmas
+import JanetModel.Depth.TailLemmas
+import JanetModel.Depth.Iterative
+import JanetModel.Gen.Depth
+namespace JanetModel.Props.C19
+open JanetModel.Depth
+
+/-- ★ every run of consecutive non-guard frames of a call chain is at most |V| long -/
+theorem bounded_depth_runs (G : CG) (rank : List Nat) (hok : rankOK G rank = true)
+    (pre run post : List Nat) (hc : IsChain G (pre ++ run ++ post))
+    (hng : ∀ v ∈ run, isGuard G v = false) (hin : ∀ v ∈ run, v < G.n) : run.length ≤ G.n := by
+  have h1 : IsChain G (pre ++ run) := IsChain.of_append_left (pre ++ run) post hc
+  exact nonguard_run_le hok run (IsChain.of_append_right pre run h1) hng hin
+
+/-- ★ `bounded_depth`: with a valid rank certificate, a call chain that holds at most `L` guard frames (a guard
+    refuses to recurse once its counter reaches the limit) is at most `(L+1)·(|V|+1)` frames deep. -/
+theorem bounded_depth (G : CG) (rank : List Nat) (hok : rankOK G rank = true) (L : Nat)
+    (chain : List Nat) (hc : IsChain G chain) (hin : ∀ v ∈ chain, v < G.n) (hL : guardCount G chain ≤ L) :
+    chain.length ≤ (L + 1) * (G.n + 1) := by
+  cases chain with
+  | nil => simp
+  | cons a l =>
+    have h := chain_length_aux hok a l hc
+    have ha := rankOK_node hok (hin a List.mem_cons_self)
+    have hmono : guardCount G (a :: l) * (G.n + 1) ≤ L * (G.n + 1) := Nat.mul_le_mul_right _ hL
+    have hslack : (if isGuard G a = true then 0 else rk rank a + 1) ≤ G.n := by
+      by_cases ga : isGuard G a = true
+      · simp [ga]
+      · rcases ha with ha | ha
+        · exact absurd ha ga
+        · simp [ga]; omega
+    rw [Nat.add_mul]
+    omega
+
+/-- completeness of a failing check: a closed chain of non-guard functions refutes every rank -/
+theorem unguarded_cycle_refutes_every_rank (G : CG) (a : Nat) (mid : List Nat)
+    (hc : IsChain G (a :: (mid ++ [a]))) (hng : ∀ v ∈ a :: (mid ++ [a]), isGuard G v = false) :
+    ∀ rank : List Nat, rankOK G rank = false :=
+  unguarded_cycle_no_rank a mid hc hng
+
+/-- ★ compare/equals: the work-list loop decides structural equality for ALL values (any nesting depth); each turn is
+    the non-recursive `eqStep`, the only unbounded storage is the work list (heap) -/
+theorem traversal_uses_heap_stack (a b : V) : eqLoop (a.size) [(a, b)] = some (decide (a = b)) := by
+  have h := eqLoop_correct a.size [(a, b)] (by simp [workSize])
+  simpa using h
+
+/-- ★ parser: `n+1` opening delimiters put `n+1` entries on the explicit state stack, and closing them yields the
+    value nested `n+1` deep - every input token is one non-recursive `pstep` -/
+theorem parser_stack_heap (n k : Nat) (root : List V) :
+    (pconsume (some [root]) (List.replicate (n + 1) Tok.open_)) = some (List.replicate (n + 1) [] ++ [root]) ∧
+    pconsume (some [root]) (List.replicate (n + 1) Tok.open_ ++ [Tok.atom k] ++ List.replicate (n + 1) Tok.close)
+      = some [root ++ [wrapL n [V.atom k]]] := by
+  refine ⟨pconsume_opens (n + 1) [root], ?_⟩
+  rw [pconsume_append, pconsume_append, pconsume_opens]
+  have : pconsume (some (List.replicate (n + 1) [] ++ [root])) [Tok.atom k]
+      = some ([V.atom k] :: (List.replicate n [] ++ [root])) := by
+    simp [pconsume, pstep, List.replicate_succ]
+  rw [this]
+  exact pconsume_closes n [V.atom k] root
+
+/-- ★ marker: recursion is on the depth counter (C depth ≤ JANET_RECURSION_GUARD by construction); when it runs
+    out the value is kept on the root list, never dropped -/
+theorem gc_spill_keeps (succ : Nat → List Nat) (d x : Nat) (s : MarkState) :
+    x ∈ (markD succ d x s).marked ∨ x ∈ (markD succ d x s).spill :=
+  markD_marks_or_spills succ d x s
+
+/-- ★ tail calls of any depth run in constant fiber stack -/
+theorem tailcall_constant_stack (fr0 S A cap0 : Nat) (calls : List (Nat × Fn)) (f f' : Fiber)
+    (hinv : TailInv fr0 S A cap0 f) (hall : ∀ c ∈ calls, c.1 ≤ A ∧ c.2.slotcount ≤ S ∧ c.2.arity ≤ S)
+    (h : tailLoop f calls = some f') :
+    f'.frame = fr0 ∧ f'.stacktop ≤ fr0 + S + FRAME ∧
+      (f'.capacity ≤ cap0 ∨ f'.capacity ≤ 2 * (fr0 + 2 * S + A + FRAME + 1)) := by
+  have r := tailLoop_inv calls f f' hinv hall h
+  exact ⟨r.frame_eq, r.top_le, r.cap_le⟩
+
+/-- contrast: `d` nested NON-tail calls need at least `FRAME·d` more fiber slots -/
+theorem nontail_calls_grow (calls : List (Nat × Fn)) (f f' : Fiber) (h : callLoop f calls = some f') :
+    f.stackstart + FRAME * calls.length ≤ f'.stackstart :=
+  callLoop_grows calls f f' h
+
+/-- non-vacuity: a tail loop of 3 calls from a concrete fiber satisfies the hypotheses -/
+example : ∃ f', tailLoop ⟨10, 20, 20, 64⟩
+    [(2, ⟨6, 2, 2, 2, false⟩), (1, ⟨9, 1, 1, 1, false⟩), (3, ⟨4, 1, 1, 100, true⟩)] = some f' ∧ f'.frame = 10 := by
+  exact ⟨_, rfl, rfl⟩
+
+example : TailInv 10 10 3 64 ⟨10, 20, 20, 64⟩ := ⟨rfl, rfl, by decide, Or.inl (Nat.le_refl _)⟩
+
+/-- non-vacuity of `bounded_depth`: a 3-node graph with one guard has a valid rank, and an unguarded 2-cycle has none -/
+example : rankOK { n := 3, edges := [(0, 1), (1, 2), (2, 0)], guard := [true, false, false] } [0, 1, 0] = true := by decide
+example : rankOK { n := 2, edges := [(0, 1), (1, 0)], guard := [false, false] } [1, 0] = false := by decide
+
+/-- ★ per-run obligation: on the call graph regenerated from the current source, every call cycle passes through a
+    guard (the translator's rank certificate is valid).  Kernel evaluation. -/
+theorem cg_rank_ok : rankOK JanetModel.Gen.Depth.cg JanetModel.Gen.Depth.rank = true := by decide +kernel
+
+/-- the generated tables are consistent -/
+theorem cg_tables_consistent :
+    JanetModel.Gen.Depth.names.length = JanetModel.Gen.Depth.nV ∧
+    JanetModel.Gen.Depth.guard.length = JanetModel.Gen.Depth.nV ∧
+    JanetModel.Gen.Depth.rank.length = JanetModel.Gen.Depth.nV := by decide +kernel
+
+end JanetModel.Props.C19
